@@ -84,6 +84,7 @@ static int in_try[16];
 static int once_runs[256], once_done[256];
 static int sleeps_in_lock[16]; static int in_lock_call[16];
 static int expect_stuck_ok;
+static int waiting_mu[16]; static struct cond_arg *waiting_cond[16]; /* the condition of the nsync_mu_wait call a fiber is inside (C06 quiescence oracle) */
 
 static int nfibers_total;
 /* C14: how often a fiber goes to sleep inside ONE nsync_mu_lock / nsync_mu_rlock call */
@@ -242,7 +243,9 @@ static void run_prog (void *arg) {
 			if (c) { vf_log ("condarg c%d x%d %d eq=%d", c->id, (int) (c->var - vars), c->val, cond_eq[o->b]); }
 			shadow_rel (o->a, wmode);
 			vf_api_enter ();
+			if (me >= 0 && me < 16) { waiting_cond[me] = c; waiting_mu[me] = o->a; }
 			res = nsync_mu_wait_with_deadline (&mus[o->a], c ? (c->kind ? &cond_fn_ge : &cond_fn_eq) : NULL, c, c && cond_eq[o->b] ? &cond_arg_eq : NULL, t, cn);
+			if (me >= 0 && me < 16) { waiting_cond[me] = NULL; }
 			vf_api_leave ();
 			shadow_acq (o->a, wmode);
 			vf_log ("ret nsync_mu_wait_with_deadline %s", res == 0 ? "0" : res == ETIMEDOUT ? "ETIMEDOUT" : res == ECANCELED ? "ECANCELED" : "?");
@@ -255,7 +258,7 @@ static void run_prog (void *arg) {
 		case OP_NOTE_NEW: {
 			nsync_time t = mk_deadline (o, dt, sizeof (dt)); nsync_note par = o->b >= 0 ? notes[o->b] : NULL;
 			vf_log ("call nsync_note_new %s %s", par ? vf_name_of (par) : "-", dt);
-			exp_min[o->a] = dl_ns (o); if (o->b >= 0 && exp_min[o->b] < exp_min[o->a]) { exp_min[o->a] = exp_min[o->b]; }
+			exp_min[o->a] = dl_ns (o); if (par != NULL && exp_min[o->b] < exp_min[o->a]) { exp_min[o->a] = exp_min[o->b]; } /* par == NULL also when the parent's creation failed (C19 scenarios): the note is then a root */
 			vf_api_enter (); notes[o->a] = nsync_note_new (par, t); vf_api_leave ();
 			vf_log ("ret nsync_note_new %s", notes[o->a] ? vf_name_of (notes[o->a]) : "NULL");
 			remember_note (notes[o->a]); dump_notes ();
@@ -506,6 +509,20 @@ static int run_one (char **lines, int nlines, struct vf_config *cfg, FILE *out) 
 	if (preprog.n != 0) { run_prog (&preprog); }
 	for (i = 0; i != nprogs; i++) { vf_spawn (&run_prog, &progs[i]); }
 	outcome = vf_run ();
+	if (outcome == VF_STUCK) {
+		/* C06 at quiescence: nobody can move any more (so no critical section is in progress); a thread still
+		   inside nsync_mu_wait whose condition is TRUE has been left asleep by the release that made it true —
+		   a violation even in scenarios that may legitimately block */
+		int k;
+		for (k = 0; k != 16; k++) {
+			struct cond_arg *c = waiting_cond[k];
+			if (c != NULL && (c->kind ? (*c->var >= c->val) : (*c->var == c->val)) &&
+			    (*(volatile uint32_t *) &mus[waiting_mu[k]] & (MU_WLOCK | MU_RLOCK_FIELD)) == 0) {
+				vf_violation ("muwait-missed", "fiber %d is asleep in nsync_mu_wait although its condition c%d is true, the mutex is free and no thread can move", k, c->id);
+				outcome = VF_ORACLE;
+			}
+		}
+	}
 	if (outcome == VF_STUCK && expect_stuck_ok) { outcome = VF_OK; }
 	if (outcome == VF_OK) {
 		for (i = 0; i != nmu; i++) { if (vf_name_of (&mus[i]) && api_w[i] == 0 && api_r[i] == 0) { /* quiescent */ } }
